@@ -25,7 +25,7 @@ func pick[T any](rng *rand.Rand, xs []T) T { return xs[rng.IntN(len(xs))] }
 func genPeer(rng *rand.Rand, allowRaw bool) PeerSpec {
 	if allowRaw && rng.IntN(4) == 0 {
 		return PeerSpec{Kind: "raw", Mode: pick(rng, []string{"silent", "partial", "garbage", "stall", "mcast2",
-			"redun-play-tcp", "redun-play-tcp", "redun-play-udp", "redun-play-udp", "redun-record-tcp", "backchan-udp", "backchan-udp"}), Proto: "tcp"}
+			"redun-play-tcp", "redun-play-tcp", "redun-play-udp", "redun-play-udp", "redun-record-tcp", "backchan-udp", "backchan-udp", "rtcpburst-tcp", "rtcpburst-tcp"}), Proto: "tcp"}
 	}
 	ps := PeerSpec{Kind: "client", Mode: pick(rng, []string{"play", "play", "record"}), Proto: pick(rng, []string{"udp", "tcp"}),
 		Park: 1 + rng.IntN(StepFlow2)}
@@ -134,8 +134,13 @@ func genSpec(rng *rand.Rand, id int) Spec {
 		sp.ClosePoint = rng.IntN(StepTeardown)
 		k := rng.IntN(100)
 		switch {
-		case k < 42:
+		case k < 38:
 			sp.ServerKind = "real"
+		case k < 42:
+			// Close while the connect is pending (plain dial, TLS dial, the halves of the HTTP tunnel)
+			sp.ServerKind, sp.DialBlock = "blockdial", pick(rng, []string{"plain", "tls", "tunnel1", "tunnel2"})
+			sp.Peers[0].Proto = "tcp"
+			sp.ClosePoint, sp.During, sp.DelayUs = StepStart, true, rng.IntN(30000)
 		case k < 58:
 			// the client's internal reset paths before the Close: automatic UDP -> TCP switch (UDP blackholed or a
 			// server that never sends, 461, TCP transport in the SETUP answer), redirect during DESCRIBE
@@ -318,6 +323,25 @@ func sweep(rng *rand.Rand) []Spec {
 				out = append(out, sp)
 				id++
 			}
+		}
+	}
+	// Close during connect
+	for _, db := range []string{"plain", "tls", "tunnel1", "tunnel2"} {
+		for rep := 0; rep < 2; rep++ {
+			out = append(out, Spec{ID: id, Target: "client", ServerKind: "blockdial", DialBlock: db, ClosePoint: StepStart, During: true,
+				DelayUs: rng.IntN(20000), Procs: pick(rng, []int{1, 2, 4, 8}), WriteTimeout: 400, Seed: rng.Uint64(),
+				Peers: []PeerSpec{{Kind: "client", Mode: pick(rng, []string{"play", "record"}), Proto: "tcp"}}})
+			id++
+		}
+	}
+	// a TCP reader with buffered RTCP frames while the server side closes the session
+	for _, target := range []string{"server", "stream", "session"} {
+		for rep := 0; rep < 4; rep++ {
+			out = append(out, Spec{ID: id, Target: target, ClosePoint: StepSetup0 + rng.IntN(StepFlow2-StepSetup0), During: rep%2 == 1, DelayUs: rng.IntN(500),
+				Procs: pick(rng, []int{2, 4, 8}), WriteTimeout: 400, Seed: rng.Uint64(), SlowCbUs: pick(rng, []int{40, 100, 250}), Noise: rng.IntN(2),
+				Peers: []PeerSpec{{Kind: "client", Mode: "play", Proto: pick(rng, []string{"udp", "tcp"})},
+					{Kind: "raw", Mode: "rtcpburst-tcp", Proto: "tcp"}, {Kind: "raw", Mode: "rtcpburst-tcp", Proto: "tcp"}}})
+			id++
 		}
 	}
 	// busy RTCP ports / failing listeners: every socket opened on the way must be closed again
@@ -807,7 +831,7 @@ func Run(ctx *corr.Ctx) {
 		for _, f := range []struct {
 			on   bool
 			name string
-		}{{sp.Hammer, "with:hammer"}, {sp.Joiner, "with:joiner"}, {sp.PeerTeardown, "with:peer-teardown"}, {sp.ServerKind == "stall", "with:stalled-server"}, {sp.ServerKind == "mute", "with:mute-server"}, {sp.ServerKind == "script" && len(sp.Burst) > 0, "with:script-server-burst"}, {sp.Blackhole, "with:udp-blackhole-auto-switch"}, {sp.ScriptSetup != "" && sp.Peers[0].Proto == "auto", "with:script-setup-" + sp.ScriptSetup}, {sp.Redirect, "with:redirect"}, {sp.UDPCollide > 0, "with:udp-rtcp-port-busy-injected"}, {sp.UDPBlockers > 0, "with:udp-odd-ports-occupied"}, {sp.ExplicitBusy, "with:explicit-ports-rtcp-busy"}, {sp.SrvListenFail > 0 || sp.SrvTCPFail, "with:server-listener-failure"}, {sp.SlowCbUs > 0, "with:slow-callbacks"}} {
+		}{{sp.Hammer, "with:hammer"}, {sp.Joiner, "with:joiner"}, {sp.PeerTeardown, "with:peer-teardown"}, {sp.ServerKind == "stall", "with:stalled-server"}, {sp.ServerKind == "mute", "with:mute-server"}, {sp.ServerKind == "script" && len(sp.Burst) > 0, "with:script-server-burst"}, {sp.Blackhole, "with:udp-blackhole-auto-switch"}, {sp.ScriptSetup != "" && sp.Peers[0].Proto == "auto", "with:script-setup-" + sp.ScriptSetup}, {sp.Redirect, "with:redirect"}, {sp.ServerKind == "blockdial", "with:close-during-connect-" + sp.DialBlock}, {sp.UDPCollide > 0, "with:udp-rtcp-port-busy-injected"}, {sp.UDPBlockers > 0, "with:udp-odd-ports-occupied"}, {sp.ExplicitBusy, "with:explicit-ports-rtcp-busy"}, {sp.SrvListenFail > 0 || sp.SrvTCPFail, "with:server-listener-failure"}, {sp.SlowCbUs > 0, "with:slow-callbacks"}} {
 			if f.on {
 				ctx.Dist(f.name)
 			}
